@@ -76,6 +76,7 @@ bool LoadScenario(const js::J& j, Scenario* s, string* err) {
     else if (k == "write") op.kind = Op::kWrite;
     else if (k == "mkdir") op.kind = Op::kMkdir;
     else if (k == "rmlog") op.kind = Op::kRmLogRecord;
+    else if (k == "duplog") op.kind = Op::kDupLogRecord;
     else if (k == "variant") { op.kind = Op::kVariant; op.variant = (int)oj["to"].num(); }
     else if (k == "ninja") {
       op.kind = Op::kNinja;
